@@ -1271,6 +1271,44 @@ pub fn drive_c16(a: &Args) {
             }
         }
     }
+    // a rigid run of letters between / before / after Sigma* on the right; on the left the same run with ONE element
+    // repeated (a power x^2, a loop x{2,3} or x{1,2}, or the letter written twice) at every position of the run
+    {
+        let letters = [pool.a, pool.b, pool.c];
+        let mut runs: Vec<Vec<u32>> = vec![];
+        for n in 2..=3usize {
+            for code in 0..3usize.pow(n as u32) {
+                let mut c = code;
+                runs.push((0..n).map(|_| { let l = letters[c % 3]; c /= 3; l }).collect());
+            }
+        }
+        for (ri, r) in runs.iter().enumerate() {
+            let rigid: Vec<T> = r.iter().map(|&c| T::Chr(c)).collect();
+            let vs: Vec<T> = vec![
+                T::CatL([vec![T::All], rigid.clone(), vec![T::All]].concat()),
+                T::CatL([rigid.clone(), vec![T::All]].concat()),
+                T::CatL([vec![T::All], rigid.clone()].concat()),
+            ];
+            for p in 0..r.len() {
+                let x = T::Chr(r[p]);
+                let reps: Vec<T> = vec![T::Pow(bx(&x), 2), T::Loop(bx(&x), 2, Some(3)), T::Loop(bx(&x), 1, Some(2)), T::Str(vec![r[p], r[p]])];
+                for (qi, q) in reps.iter().enumerate() {
+                    if !a.thorough() && (ri + p + qi) % 2 != (a.seed as usize) % 2 {
+                        continue;
+                    }
+                    let mut u = rigid.clone();
+                    u[p] = q.clone();
+                    // built as a list, and as (prefix string) . rest - the second way keeps the repeated letter a loop
+                    let u1 = T::CatL(u.clone());
+                    let u2 = if p + 1 < u.len() { T::Cat2(bx(&T::CatL(u[..=p].to_vec())), bx(&T::CatL(u[p + 1..].to_vec()))) } else { u1.clone() };
+                    for v in &vs {
+                        pairs.push((u1.clone(), v.clone(), "power-in-rigid-run"));
+                        pairs.push((u2.clone(), v.clone(), "power-in-rigid-run"));
+                    }
+                }
+            }
+        }
+    }
     // sub-term pairs of random programs
     for _ in 0..a.sz(150, 2500) {
         let t = random_term(&mut rng, 3, &pool);
